@@ -44,6 +44,8 @@ pub fn make(id: &str, tier: Tier) -> Option<Box<dyn Check>> {
     "C17" => Some(Box::new(c17::C17::new(tier))),
     "C18" => Some(Box::new(c18::C18::new(tier))),
     "C19" => Some(Box::new(c19::C19::new(tier))),
+    #[cfg(feature = "fs")]
+    "C20" => Some(Box::new(c20::C20::new(tier))),
     _ => None,
   }
 }
